@@ -539,6 +539,12 @@ namespace adept {
 	  Type val = rhs.scalar_value();
 	  int dim;
 	  static const int last = Rank-1;
+	  // One operation is pushed per element assigned
+	  Index n_elements = 1;
+	  for (int r = 0; r < Rank; ++r) {
+	    n_elements *= dimensions_[r];
+	  }
+	  ADEPT_ACTIVE_STACK->check_space(n_elements);
 	  do {
  	    coords[last] = 0;
 	    // Convert between the coordinates of the IndexedArray
@@ -784,7 +790,13 @@ namespace adept {
 	int dim;
 	static const int last = Rank-1;
 
-	ADEPT_ACTIVE_STACK->check_space(expr_cast<E>::n_active * dimensions_[0]);
+	// Reserve space for every element to be assigned, not just the
+	// extent of the first dimension
+	Index n_elements = 1;
+	for (int r = 0; r < Rank; ++r) {
+	  n_elements *= dimensions_[r];
+	}
+	ADEPT_ACTIVE_STACK->check_space(expr_cast<E>::n_active * n_elements);
 	do {
 	  coords[last] = 0;
 	  rhs.set_location(coords, loc);
